@@ -101,6 +101,15 @@ func variants(b []byte, r *rand.Rand) []variant {
 			variant{"0x-only", "0x"},
 			variant{"empty", ""},
 		)
+		// every string of length 1 and 2 over the characters the prefix logic looks at
+		alpha := []string{"0", "x", "X", "a", "f", "g", " "}
+		for _, c1 := range alpha {
+			vs = append(vs, variant{"tiny", c1})
+			for _, c2 := range alpha {
+				vs = append(vs, variant{"tiny", c1 + c2})
+			}
+		}
+		vs = append(vs, variant{"tiny", "0x0"}, variant{"tiny", "00x"}, variant{"tiny", "0x "}, variant{"tiny", "x0" + h})
 	}
 	return vs
 }
